@@ -46,6 +46,12 @@ class DropIn(Monitor):
             return
         from sigtools import _signatures
         if not isinstance(value, _signatures.UpgradedSignature):
+            if isinstance(value, inspect.Signature):
+                # "every signature sigtools returns" is of the upgraded type, whatever was handed in
+                self.ctx.count('C14.plain_returned')
+                self.V('returns-plain-signature', '%s returned a plain inspect.Signature (input types: %s)' % (
+                    point, ', '.join(type(a).__name__ for a in args if isinstance(a, inspect.Signature)) or '-'),
+                    {'signature': str(value), 'returned_by': point})
             return
         self.check(value, point)
 
